@@ -272,6 +272,7 @@ def _starscan(ctx, cfg, prog, mod):
 
 
 def run(ctx):
+    ctx.rule('POSTFLIP', 'the flip kernel used by the fast removal path reports success only behind neighbour wiring, removal of the old cells and the orientation normalisation')
     ctx.rule('STARSCAN', 'the raw Tds removal (no refill) is reached only behind the fan fill or an emptiness decision on the star computed from the Tds')
     ctx.rule('TXN', 'remove_vertex (both layers) and the inverse k=1 flip are clean on failure')
     ctx.rule('UNKNOWN', 'unknown vertex => no mutation reachable and Ok(0)')
@@ -379,6 +380,9 @@ def run(ctx):
         _apex(ctx, cfg, prog, mod)
         _fancover(ctx, cfg, prog, mod)
         _starscan(ctx, cfg, prog, mod)
+        # the fast path of remove_vertex is the inverse k=1 flip: the shared flip kernel must wire, remove and normalise
+        import c07
+        c07._postflip(ctx, cfg, prog, lv)
         # ---- REPAIR
         b = prog.bodies[DT_RM]
         te = gate.predicate_edges(b, {SHOULD}, True)
